@@ -41,6 +41,8 @@ type concPubSub struct {
 	lateSub     bool // a second client subscribes (QoS 0) concurrently
 	takeover    bool // the subscriber's connection is displaced concurrently (clean start 0)
 	unsub       bool // the late subscriber also unsubscribes concurrently (separate thread, after its SUBACK)
+	subMaxPkt   uint32 // subscriber's Maximum Packet Size (0 = absent)
+	big         [][]bool // per publisher, per message: payload padded beyond subMaxPkt
 }
 
 func (s concPubSub) window() int {
@@ -80,6 +82,7 @@ type concMsg struct {
 	pub, idx int
 	qos      byte
 	payload  string
+	big      bool
 	sentAt   int64 // stamp after the publisher wrote it (0 = API)
 	ackedAt  int64 // stamp of PUBACK / PUBREC written by the broker
 }
@@ -96,6 +99,9 @@ func concPubSubBody(obs *concObs, sc concPubSub, prop string) func() {
 		sprops := &refmqtt.Props{SessionExpiry: harness.U32(100)}
 		if sc.recvMax != 0 {
 			sprops.ReceiveMax = harness.U16(sc.recvMax)
+		}
+		if sc.subMaxPkt != 0 {
+			sprops.MaxPacketSize = harness.U32(sc.subMaxPkt)
 		}
 		sopts := harness.ConnectOpts{ClientID: "s", Clean: false, Version: sc.subVersion}
 		if sc.subVersion == refmqtt.V5 {
@@ -116,7 +122,12 @@ func concPubSubBody(obs *concObs, sc concPubSub, prop string) func() {
 			p.Connect(harness.ConnectOpts{ClientID: fmt.Sprintf("p%d", i+1), Clean: true, Version: refmqtt.V5})
 			pubs = append(pubs, p)
 			for j, q := range sc.pubQoS[i] {
-				msgs = append(msgs, &concMsg{pub: i, idx: j, qos: q, payload: fmt.Sprintf("p%dm%d", i+1, j+1)})
+				m := &concMsg{pub: i, idx: j, qos: q, payload: fmt.Sprintf("p%dm%d", i+1, j+1)}
+				if i < len(sc.big) && j < len(sc.big[i]) && sc.big[i][j] {
+					m.big = true
+					m.payload += strings.Repeat("B", int(sc.subMaxPkt))
+				}
+				msgs = append(msgs, m)
 			}
 		}
 		for k := 0; k < sc.apiPub; k++ {
@@ -318,8 +329,12 @@ func concPubSubBody(obs *concObs, sc concPubSub, prop string) func() {
 			}
 			if !sc.takeover {
 				for _, m := range msgs {
-					if n := allCopies[m.payload]; n != 1 {
-						obs.bad("delivery", fmt.Sprintf("%d-copies-of-a-message-want-1", n), m.payload)
+					want := 1
+					if m.big {
+						want = 0
+					}
+					if n := allCopies[m.payload]; n != want {
+						obs.bad("delivery", fmt.Sprintf("%d-copies-of-a-message-want-%d", n, want), trimTo(m.payload, 12))
 					}
 				}
 			} else {
@@ -440,7 +455,7 @@ func concPubSubBody(obs *concObs, sc concPubSub, prop string) func() {
 			}
 			// at-least-once
 			for _, m := range msgs {
-				if m.qos > 0 && sc.subQoS > 0 && allCopies[m.payload] == 0 {
+				if m.qos > 0 && sc.subQoS > 0 && allCopies[m.payload] == 0 && !m.big {
 					obs.bad("at-least-once", "qos>0-message-never-delivered", m.payload)
 				}
 			}
@@ -455,7 +470,7 @@ func concPubSubBody(obs *concObs, sc concPubSub, prop string) func() {
 		}
 		order := ""
 		for _, x := range recs {
-			order += fmt.Sprintf("%d%s ", x.conn, x.rx.P.Payload)
+			order += fmt.Sprintf("%d%s ", x.conn, trimTo(string(x.rx.P.Payload), 6))
 		}
 		obs.outcome = fmt.Sprintf("copies=%d dup=%d order=%s", len(recs), nd, strings.TrimSpace(order))
 		if L != nil {
@@ -564,6 +579,7 @@ func concScenarios(prop string, quick bool) []concPubSub {
 		{name: "2pub-q1-sub-q1-recvmax2", pubQoS: [][]byte{q1, q1}, subQoS: 1, subVersion: refmqtt.V5, recvMax: 2, maxInflight: 100},
 		{name: "pub-q2-pub-q0-sub-q2-inflight1", pubQoS: [][]byte{{2, 2}, {0, 0}}, subQoS: 2, subVersion: refmqtt.V311, maxInflight: 1},
 		{name: "pub-q1-api-late-subscribe", pubQoS: [][]byte{{1, 1}}, apiPub: 1, subQoS: 1, subVersion: refmqtt.V5, recvMax: 1, maxInflight: 100, lateSub: true},
+		{name: "2pub-oversize-among-small-recvmax1", pubQoS: [][]byte{{1, 1, 1}, {1}}, big: [][]bool{{false, true, false}, {false}}, subQoS: 1, subVersion: refmqtt.V5, recvMax: 1, subMaxPkt: 40, maxInflight: 100},
 		{name: "2pub-q1q2-takeover", pubQoS: [][]byte{{1, 2}, {1}}, subQoS: 2, subVersion: refmqtt.V5, recvMax: 2, maxInflight: 100, takeover: true},
 	}
 	if !quick {
